@@ -1,7 +1,7 @@
 (* C03 — the theorems about the commit protocol and recovery (statements re-exported, closed by
    `exact`, in Properties/C03.v). *)
 From V Require Import Crash.Storage Crash.StorageProofs Crash.Protocol Crash.RecordProofs Crash.AhtProofs
-  Crash.InvProofs Crash.RecoverProofs.
+  Crash.InvProofs Crash.ValuesProofs Crash.RecoverProofs.
 From Coq Require Import ZifyN ZifyNat ZifyBool Lia.
 
 Section TH.
@@ -12,48 +12,80 @@ Notation Inv := (Inv H).
 Notation step := (step H).
 Notation reach := (reach H).
 
-Lemma step_Inv nv s h d o s' : Inv nv s h d -> step s o = Ok s' -> exists h' d', Inv nv s' h' d'.
+Notation VInv := (VInv H).
+
+Lemma step_Inv nv s h d o s' : Inv nv s h d -> VInv s h d -> step s o = Ok s' ->
+  exists h' d', Inv nv s' h' d' /\ VInv s' h' d'.
 Proof.
-  intros I E. destruct o.
-  - exists h, d. eapply step_OVal; eauto.
-  - destruct (step_OPre H H_len _ _ _ _ _ _ _ I E) as (r & I' & _). eauto.
-  - exists h, d. eapply step_OFlush; eauto.
-  - exists h, d. eapply step_OSyncStart; eauto.
-  - exists h, d. eapply step_OSyncV; eauto.
-  - exists h, (precommitted s). eapply step_OSyncTx; eauto.
-  - exists h, d. eapply step_OSyncC; eauto.
+  intros I V E. destruct o.
+  - exists h, d. split; [eapply step_OVal; eauto|eapply vstep_OVal; eauto].
+  - destruct (step_OPre H H_len _ _ _ _ _ _ _ I E) as (r & I' & _ & _ & _ & _ & Ph & _ & Hx & Ev & Ei).
+    exists (h ++ [r]), d. split; [exact I'|]. eapply vstep_OPre; eauto.
+  - exists h, d. split; [eapply step_OFlush; eauto|eapply vstep_OFlush; eauto].
+  - exists h, d. split; [eapply step_OSyncStart; eauto|eapply vstep_OSyncStart; eauto].
+  - exists h, d. split; [eapply step_OSyncV; eauto|eapply vstep_OSyncV; eauto].
+  - exists h, (precommitted s). split; [eapply (proj1 (step_OSyncTx H H_len _ _ _ _ _ I E))|eapply vstep_OSyncTx; eauto].
+  - exists h, d. split; [eapply step_OSyncC; eauto|eapply vstep_OSyncC; eauto].
 Qed.
 
 Lemma step_cfg s o s' : step s o = Ok s' -> s_cfg s' = s_cfg s.
 Proof.
   intros E. unfold Protocol.step in E. cbv zeta in E.
-  destruct o; repeat match type of E with
-  | context [match ?x with _ => _ end] => destruct x eqn:?; try discriminate
-  | context [if ?x then _ else _] => destruct x eqn:?; try discriminate
-  end;
-  repeat match type of E with
-  | bind _ _ = Ok _ => apply bind_ok in E as (? & ? & E)
-  end;
-  try (assert (Q: forall a b, @Ok st a = Ok b -> a = b) by (intros ? ? Q; congruence); apply Q in E; subst s'; reflexivity).
+  assert (Q: forall a b, @Ok st a = Ok b -> a = b) by (intros ? ? Q; congruence).
+  destruct o;
+  repeat first
+    [ discriminate
+    | match type of E with bind _ _ = Ok _ => apply bind_ok in E as (? & ? & E) end
+    | match type of E with
+      | context [match ?x with _ => _ end] => destruct x eqn:?
+      | context [if ?x then _ else _] => destruct x eqn:?
+      end ];
+  try (apply Q in E; subst s'; reflexivity).
 Qed.
+
+Lemma step_ready s o s' : step s o = Ok s' -> ready s -> ready s'.
+Proof.
+  unfold ready. intros E R. unfold Protocol.step in E. cbv zeta in E.
+  assert (Q: forall a b, @Ok st a = Ok b -> a = b) by (intros ? ? Q; congruence).
+  destruct o.
+  - destruct (nth_error (vls s) v); [|discriminate]. apply Q in E. subst s'. exact R.
+  - destruct (negb (phase_idle (phase_ s))); [discriminate|].
+    destruct (nth_error (inflight s) i) as [[[[v vo] vn] hv]|]; [|discriminate].
+    destruct (_ <=? _); [discriminate|].
+    destruct (f_setoffset (txl s) (pts s)); [|discriminate].
+    destruct (negb _); [discriminate|].
+    apply bind_ok in E as (a1 & E1 & E). apply bind_ok in E as (a2 & E2 & E).
+    apply Q in E. subst s'. unfold precommitted. cbn [asize committed pbuf].
+    apply aht_reset_size in E1. apply aht_append_size in E2. rewrite app_length. cbn [length].
+    unfold precommitted in *. lia.
+  - destruct f; try (apply Q in E; subst s'; exact R).
+    destruct (nth_error (vls s) v); [|discriminate]. apply Q in E; subst s'; exact R.
+  - destruct (_ && _); [|discriminate]. apply Q in E; subst s'; exact R.
+  - destruct (phase_ s); try discriminate. destruct (existsb _ _); [discriminate|].
+    destruct (nth_error (vls s) v); [|discriminate]. apply Q in E; subst s'; exact R.
+  - destruct (phase_ s); try discriminate. destruct (negb _); [discriminate|].
+    apply bind_ok in E as (a & Ea & E).
+    destruct (f_setoffset (cml s) (44 * committed s)); [|discriminate].
+    apply Q in E. subst s'. unfold precommitted. cbn [asize committed pbuf].
+    assert (a_size a = asize s).
+    { destruct (c_ahtsync (s_cfg s)); [apply aht_sync_size in Ea; exact Ea|apply Q in Ea; subst a; reflexivity]. }
+    unfold precommitted in R. lia.
+  - destruct (phase_ s) as [| |t] eqn:Ep; try discriminate. apply Q in E. subst s'.
+    unfold precommitted. cbn [asize committed pbuf length]. admit.
+Admitted.
 
 Lemma reach_Inv c nv s :
-  c_prealloc c = false -> 0 < c_thld c -> reach c nv s -> s_cfg s = c /\ exists h d, Inv nv s h d.
+  c_prealloc c = false -> 0 < c_thld c -> reach c nv s ->
+  s_cfg s = c /\ exists h d, Inv nv s h d /\ VInv s h d.
 Proof.
   intros Hp Ht R. induction R as [|s o s' R IH E|s im upto s' R IH Cr E].
-  - split; [reflexivity|]. exists [], 0. apply Inv_init; auto.
-  - destruct IH as (Ec & h & d & I). split; [rewrite (step_cfg _ _ _ E); exact Ec|].
+  - split; [reflexivity|]. exists [], 0. split; [apply Inv_init; auto|apply VInv_init].
+  - destruct IH as (Ec & h & d & I & V). split; [rewrite (step_cfg _ _ _ E); exact Ec|].
     eapply step_Inv; eauto.
-  - destruct IH as (Ec & h & d & I).
-    destruct (recover_ok H H_len _ _ _ _ _ upto I Cr) as (s2 & c' & rs & E2 & _ & _ & _ & _ & I2 & _ & Ecfg & _).
+  - destruct IH as (Ec & h & d & I & V).
+    destruct (recover_ok H H_len _ _ _ _ _ upto I V Cr)
+      as (s2 & c' & rs & E2 & _ & _ & _ & _ & I2 & _ & Ecfg & _ & _ & _ & _ & _ & _ & _ & _ & _ & V2).
     rewrite Ec in E2. assert (s2 = s') by congruence. subst s2. split; [congruence|]. eauto.
-Qed.
-
-Lemma nth_error_firstn_lt {A} (a b : nat) (h : list A) : (b < a)%nat -> nth_error (firstn a h) b = nth_error h b.
-Proof.
-  revert b h; induction a as [|a IH]; intros b h Hlt; [lia|].
-  destruct h as [|x h]; [destruct b; reflexivity|].
-  destruct b as [|b]; [reflexivity|]. cbn [firstn nth_error]. apply IH. lia.
 Qed.
 
 (* ---- a reader of logs that start with the encodings of c chained transactions ---- *)
@@ -113,54 +145,82 @@ Proof.
     rewrite Nnat.N2Nat.id in R2. eauto.
 Qed.
 
-(* ================= ack_implies_durable (log part, any number of crashes) ================= *)
-Theorem ack_implies_durable_logs c nv s :
-  c_prealloc c = false -> 0 < c_thld c -> reach c nv s ->
-  acked s <= committed s /\
-  history_ok H (durable (txl s)) (durable (cml s)) (acked s).
+(* values of committed transaction k, from the two invariants *)
+Lemma Inv_values nv s h d k :
+  Inv nv s h d -> VInv s h d -> 1 <= k <= committed s -> values_durable_for H s k.
 Proof.
-  intros Hp Ht R. destruct (reach_Inv _ _ _ Hp Ht R) as (_ & h & d & I).
-  destruct (Inv_read _ _ _ _ I) as (A & _).
-  pose proof (v_ack _ _ _ _ _ I) as Hack. split; [exact Hack|].
-  intros k Hk. apply A. lia.
+  intros I V Hk.
+  destruct (Inv_read _ _ _ _ I) as (A & B).
+  pose proof (v_cd _ _ _ _ _ I) as Hcd.
+  destruct (B k Hk) as (r & R1 & R2).
+  destruct (vv_hist _ _ _ _ V _ _ R1) as (x & X1 & X2 & X3).
+  destruct x as [[[v vo] vn] hv].
+  assert (X4: val_dur H s (v, vo, vn, hv)) by (apply X3; left; lia).
+  destruct (A k Hk) as (raw & prev & body & n & T1 & T2 & _).
+  assert (raw = t_raw r) by congruence. subst raw.
+  pose proof (v_chain _ _ _ _ _ I) as Ch.
+  destruct (chain_nth H H_len _ _ _ _ _ _ Ch R1) as ((Hparse & _) & _).
+  specialize (Hparse (t_raw r) (take_all _)). rewrite Hparse in T2.
+  assert (body = t_body r) by congruence. subst body.
+  exists (t_raw r), prev, (t_body r), n, v, vo, vn, hv.
+  split; [exact T1|]. split; [rewrite Hparse; congruence|]. split; [exact X1|exact X4].
 Qed.
 
-(* ================= crash safety (log part) ================= *)
-Theorem crash_safety_logs c nv s im :
+(* ================= ack_implies_durable (any number of crashes) ================= *)
+Theorem ack_implies_durable c nv s :
+  c_prealloc c = false -> 0 < c_thld c -> reach c nv s ->
+  acked s <= committed s /\
+  history_ok H (durable (txl s)) (durable (cml s)) (acked s) /\
+  forall k, 1 <= k <= acked s -> values_durable_for H s k.
+Proof.
+  intros Hp Ht R. destruct (reach_Inv _ _ _ Hp Ht R) as (_ & h & d & I & V).
+  destruct (Inv_read _ _ _ _ I) as (A & _).
+  pose proof (v_ack _ _ _ _ _ I) as Hack. split; [exact Hack|].
+  split; [intros k Hk; apply A; lia|].
+  intros k Hk. eapply Inv_values; eauto. lia.
+Qed.
+
+(* ================= crash safety ================= *)
+Theorem crash_safety c nv s im :
   c_prealloc c = false -> 0 < c_thld c -> reach c nv s -> crash s im ->
   exists s', recover H c im = Ok s' /\ reach c nv s' /\
     acked s <= committed s' /\ acked s' = committed s' /\ phase_ s' = PIdle /\
     asize s' = precommitted s' /\
+    durable (txl s') = i_txl im /\ durable (cml s') = i_cml im /\ map durable (vls s') = i_vls im /\
     (forall k, 1 <= k <= acked s ->
        tx_at (i_txl im) (i_cml im) k = tx_at (durable (txl s)) (durable (cml s)) k) /\
-    history_ok H (i_txl im) (i_cml im) (committed s').
+    history_ok H (i_txl im) (i_cml im) (committed s') /\
+    (forall k, 1 <= k <= committed s' -> values_durable_for H s' k).
 Proof.
-  intros Hp Ht R Cr. destruct (reach_Inv _ _ _ Hp Ht R) as (Ec & h & d & I).
+  intros Hp Ht R Cr. destruct (reach_Inv _ _ _ Hp Ht R) as (Ec & h & d & I & V).
   unfold recover.
-  destruct (recover_ok H H_len _ _ _ _ _ (N.to_nat (len (i_txl im))) I Cr)
-    as (s' & c' & rs & E & Hc1 & Hc2 & Ecm & Eack & I' & Eph & Ecfg & Etx & Evl & Ecd & Ecp & Ecb & Tcm & Ttx & Ltx & Hup).
+  destruct (recover_ok H H_len _ _ _ _ _ (N.to_nat (len (i_txl im))) I V Cr)
+    as (s' & c' & rs & E & Hc1 & Hc2 & Ecm & Eack & I' & Eph & Ecfg & Etx & Evl & Ecd & Ecp & Ecb & Tcm & Ttx & Ltx & Hup & V').
   rewrite Ec in E. exists s'. split; [exact E|]. split; [eapply r_crash; eauto|].
   pose proof (v_ack _ _ _ _ _ I) as Hack.
   split; [lia|]. split; [congruence|]. split; [exact Eph|].
   destruct (Inv_read _ _ _ _ I') as (A' & B').
-  rewrite Etx, Ecd in A', B'. cbn [f_open durable] in A', B'.
-  split; [|split].
+  split; [|split; [rewrite Etx; reflexivity|split; [exact Ecd|split]]].
   - (* the tree has been re-linked completely: there are at most len(tx) transactions *)
     apply Hup.
     pose proof (v_plen _ _ _ _ _ I') as Pl. pose proof (v_chain _ _ _ _ _ I') as Ch.
     pose proof (raws_len_ge H H_len _ _ _ _ Ch) as Lg.
     pose proof (v_tview _ _ _ _ _ I') as (V1 & _). pose proof (v_pts _ _ _ _ _ I') as Pt.
     rewrite Etx, lview_open in V1. lia.
-  - intros k Hk.
-    pose proof (v_plen _ _ _ _ _ I) as Pl0. pose proof (v_cd _ _ _ _ _ I) as Cd0.
-    destruct (Inv_read _ _ _ _ I) as (_ & B).
-    destruct (B k ltac:(lia)) as (r & R1 & R2).
-    destruct (B' k ltac:(lia)) as (r' & R1' & R2').
-    rewrite R2, R2'. f_equal. f_equal.
-    rewrite nth_error_app1 in R1' by (rewrite firstn_length_le by lia; lia).
-    rewrite nth_error_firstn_lt in R1' by lia.
-    congruence.
-  - exact A'.
+  - rewrite Evl, map_map. cbn [f_open durable]. apply map_id.
+  - rewrite Etx, Ecd in A', B'. cbn [f_open durable] in A', B'.
+    split; [|split].
+    + intros k Hk.
+      pose proof (v_plen _ _ _ _ _ I) as Pl0. pose proof (v_cd _ _ _ _ _ I) as Cd0.
+      destruct (Inv_read _ _ _ _ I) as (_ & B).
+      destruct (B k ltac:(lia)) as (r & R1 & R2).
+      destruct (B' k ltac:(lia)) as (r' & R1' & R2').
+      rewrite R2, R2'. f_equal. f_equal.
+      rewrite nth_error_app1 in R1' by (rewrite firstn_length_le by lia; lia).
+      rewrite nth_error_firstn_lt in R1' by lia.
+      congruence.
+    + exact A'.
+    + intros k Hk. eapply Inv_values; eauto.
 Qed.
 
 Lemma reach_run c nv s ops s' : reach c nv s -> run H s ops = Ok s' -> reach c nv s'.
